@@ -1058,6 +1058,19 @@ class Interp:
         if isinstance(test, ast.UnaryOp) and isinstance(test.op, ast.Not):
             a, b = self.refine(test.operand, env, frame)
             return b, a
+        # NULL gates over a whole list: any(x is None for x in L) / all(x is not None for x in L) / None in L
+        gate = self._list_null_gate(test)
+        if gate is not None:
+            name, nonnull_when = gate
+            lst = env.get(name)
+            if isinstance(lst, Coll) and is_atoms(lst.elem) and NoneT in lst.elem:
+                self.ev(test, env, frame)
+                clean = Coll(lst.kind, lst.elem - {NoneT}, lst.key)
+                if nonnull_when:
+                    t[name] = clean
+                else:
+                    f[name] = clean
+                return t, f
         if isinstance(test, ast.BoolOp):
             if isinstance(test.op, ast.And):
                 cur = env
@@ -1309,6 +1322,31 @@ class Interp:
         if st.orelse:
             res = self.exec_block(st.orelse, res, frame)
         return res
+
+    @staticmethod
+    def _list_null_gate(test):
+        """(list name, True if the list is NULL-free when the test is true / False when it is false) or None."""
+        if isinstance(test, ast.Call) and isinstance(test.func, ast.Name) and test.func.id in ('any', 'all') and len(test.args) == 1 \
+                and isinstance(test.args[0], (ast.GeneratorExp, ast.ListComp)) and len(test.args[0].generators) == 1:
+            c = test.args[0]
+            g = c.generators[0]
+            if g.ifs or not (isinstance(g.target, ast.Name) and isinstance(g.iter, ast.Name)):
+                return None
+            e = c.elt
+            if isinstance(e, ast.Compare) and len(e.ops) == 1 and isinstance(e.left, ast.Name) and e.left.id == g.target.id \
+                    and isinstance(e.comparators[0], ast.Constant) and e.comparators[0].value is None:
+                if test.func.id == 'any' and isinstance(e.ops[0], ast.Is):
+                    return g.iter.id, False
+                if test.func.id == 'all' and isinstance(e.ops[0], ast.IsNot):
+                    return g.iter.id, True
+            return None
+        if isinstance(test, ast.Compare) and len(test.ops) == 1 and isinstance(test.left, ast.Constant) and test.left.value is None \
+                and isinstance(test.comparators[0], ast.Name):
+            if isinstance(test.ops[0], ast.In):
+                return test.comparators[0].id, False
+            if isinstance(test.ops[0], ast.NotIn):
+                return test.comparators[0].id, True
+        return None
 
     def _null_gate(self, st, env0, env_after):
         if not (isinstance(st.iter, ast.Name) and isinstance(st.target, ast.Name)):
